@@ -1,9 +1,129 @@
 import Driver.Proto
+import PolyVerif.Model.Splat
 
 namespace Driver.C15
+open PolyVerif PolyVerif.Splat
 
-/-- one request -> one answer line; `none` = unknown op / malformed -/
-def handle (_op : String) (_args : List String) : Option String := none
+/-! protocol helpers (NaN is canonicalised on both sides) -/
+
+def canonNaN : String := "7ff8000000000001"
+def fHexC (f : Float) : String := if f.isNaN then canonNaN else fHex f
+def fsHexC (fs : List Float) : String := " ".intercalate (fs.map fHexC)
+
+def hexBytesAux : List Char → List UInt8 → Option (List UInt8)
+  | [], acc => some acc.reverse
+  | [_], _ => none
+  | a :: b :: rest, acc => do
+      let x ← hexDigit a; let y ← hexDigit b
+      hexBytesAux rest (UInt8.ofNat (x * 16 + y) :: acc)
+
+/-- lower-case hex byte string; "-" is the empty string -/
+def hexBytes? (s : String) : Option (List UInt8) :=
+  if s == "-" then some [] else hexBytesAux s.toList []
+
+def bytesHex (bs : List UInt8) : String :=
+  if bs.isEmpty then "-" else
+  String.ofList (bs.foldr (fun b acc => Nat.digitChar (b.toNat / 16) :: Nat.digitChar (b.toNat % 16) :: acc) [])
+
+/-! the execution environment: IEEE double, exp given as a table by the implementation side
+    (it is an opaque function of the model), everything else Lean's IEEE operations -/
+
+def shC0Float : Float := Float.ofBits 0x3fd20dd750429b6d
+
+def floatEnv (expTbl : List (UInt64 × Float)) : Env Float :=
+  { trunc := fun x => x.toUInt8.toNat,
+    exp := fun x => match expTbl.lookup x.toBits with
+      | some y => y
+      | none => Float.exp x,
+    log := Float.log,
+    to32 := fun x => x.toFloat32.toBits,
+    of32 := fun w => (Float32.ofBits w).toFloat,
+    shC0 := shC0Float }
+
+def splatOf : List Float → Option (Splat Float)
+  | [px, py, pz, sx, sy, sz, cx, cy, cz, op, r0, r1, r2, r3] =>
+    some ⟨px, py, pz, sx, sy, sz, cx, cy, cz, op, r0, r1, r2, r3⟩
+  | _ => none
+
+def splatTo (s : Splat Float) : List Float :=
+  [s.px, s.py, s.pz, s.sx, s.sy, s.sz, s.cx, s.cy, s.cz, s.op, s.r0, s.r1, s.r2, s.r3]
+
+/-- 18 floats per splat: the 14 attributes, then exp(sx) exp(sy) exp(sz) exp(-op) as the implementation's
+    math.Exp computes them -/
+def splatsWithExp : Nat → List Float → Option (List (Splat Float) × List (UInt64 × Float) × List Float)
+  | 0, rest => some ([], [], rest)
+  | n + 1, fs => do
+      let s ← splatOf (fs.take 14)
+      let ex := (fs.drop 14).take 4
+      if ex.length ≠ 4 then none
+      let tbl := [(s.sx.toBits, ex.getD 0 0), (s.sy.toBits, ex.getD 1 0), (s.sz.toBits, ex.getD 2 0),
+                  ((-s.op).toBits, ex.getD 3 0)]
+      let (ss, t, rest) ← splatsWithExp n (fs.drop 18)
+      pure (s :: ss, tbl ++ t, rest)
+
+def splatsPlain : Nat → List Float → Option (List (Splat Float))
+  | 0, [] => some []
+  | 0, _ => none
+  | n + 1, fs => do
+      let s ← splatOf (fs.take 14)
+      let ss ← splatsPlain n (fs.drop 14)
+      pure (s :: ss)
+
+def fle (a b : Float) : Bool := a ≤ b
+
+/-- the statements of Props/C15 (splat part) evaluated at Float on one (original, read-back) pair;
+    `eps` absorbs the float64 rounding of the evaluation itself -/
+def stepOk (E : Env Float) (s t : Splat Float) : Bool :=
+  let eps : Float := 1e-9
+  let colOk := fun (c c' : Float) => fle (((c' * E.shC0 + 0.5) - colStored E c).abs) (1.0 / 255.0 + eps)
+  let sig := fun (o : Float) => 1.0 / (1.0 + Float.exp (-o))
+  let rotOk := fun (r r' : Float) =>
+    if r < -1.0 then r' == -1.0 else if r > 1.0 then r' == 127.0 / 128.0
+    else fle ((r' - r).abs) (1.0 / 128.0 + eps)
+  let sclOk := fun (x x' : Float) =>
+    -- float32 rounding of exp(x): relative 2^-24 of exp x, i.e. absolute 2^-24 of x (+ rounding of exp/log)
+    fle ((x' - x).abs) (Float.ofScientific 12 true 8)
+  t.px == E.of32 (E.to32 s.px) && t.py == E.of32 (E.to32 s.py) && t.pz == E.of32 (E.to32 s.pz)
+  && sclOk s.sx t.sx && sclOk s.sy t.sy && sclOk s.sz t.sz
+  && colOk s.cx t.cx && colOk s.cy t.cy && colOk s.cz t.cz
+  && fle ((sig t.op - alphaStored E s.op).abs) (1.0 / 255.0 + eps)
+  && rotOk s.r0 t.r0 && rotOk s.r1 t.r1 && rotOk s.r2 t.r2 && rotOk s.r3 t.r3
+
+def handle (op : String) (args : List String) : Option String :=
+  match op, args with
+  | "c15.const.shc0", [] => some (fHex shC0Float)
+  | "c15.splat.write", pt :: att :: n :: rest => do
+      let n ← nat? n
+      let fs ← floats? rest
+      let (cloud, tbl, tail) ← splatsWithExp n fs
+      if !tail.isEmpty then none
+      match writeMesh (floatEnv tbl) (pt == "1") (att == "1") cloud with
+      | .ok bs => pure ("ok " ++ bytesHex bs)
+      | .error _ => pure "err"
+  | "c15.splat.read", [hex] => do
+      let bs ← hexBytes? hex
+      let (ss, short) := Splat.read (floatEnv []) bs
+      let fs := ss.flatMap fun s => [s.px, s.py, s.pz, s.cx, s.cy, s.cz, s.r0, s.r1, s.r2, s.r3]
+      pure (s!"{if short then 1 else 0} {ss.length} " ++ fsHexC fs)
+  | "c15.splat.readlog", [hex] => do
+      let bs ← hexBytes? hex
+      let (ss, _) := Splat.read (floatEnv []) bs
+      let fs := ss.flatMap fun s => [s.sx, s.sy, s.sz, s.op]
+      pure (s!"{ss.length} " ++ fsHexC fs)
+  | "c15.holds.step_bounds", n :: rest => do
+      -- n, 18 floats per original splat, then: short flag, m, 14 floats per read-back splat
+      let n ← nat? n
+      let fs ← floats? (rest.take (18 * n))
+      let (cloud, tbl, _) ← splatsWithExp n fs
+      match rest.drop (18 * n) with
+      | short :: m :: back => do
+          let m ← nat? m
+          let bk ← floats? back
+          let got ← splatsPlain m bk
+          let E := floatEnv tbl
+          pure (boolStr (short == "0" && m == n && (cloud.zip got).all (fun (s, t) => stepOk E s t)))
+      | _ => none
+  | _, _ => none
 
 end Driver.C15
 
